@@ -32,7 +32,7 @@ ASSUMPTIONS = [
     "calls with |log u - log A| < 1e-9 relative are counted as undecidable (probability ~1e-9 per call)",
     "thermal wavelength from ase.units CODATA constants: h / sqrt(2 pi m kT)",
 ]
-REQUIRED = {"judged:canonical": 500, "judged:hamiltonian": 100, "judged:isobaric": 300, "judged:isotension": 300, "judged:grand:insert": 150, "judged:grand:delete": 150, "judged:grand:delete-at-zero": 5, "judged_beyond_exp_range": 300, "u_identified": 1500, "parameter_changes": 500, "passive_simulations": 60}
+REQUIRED = {"simulations_with_constructor_default_moves": 20, "judged:canonical": 500, "judged:hamiltonian": 100, "judged:isobaric": 300, "judged:isotension": 300, "judged:grand:insert": 150, "judged:grand:delete": 150, "judged:grand:delete-at-zero": 5, "judged_beyond_exp_range": 300, "u_identified": 1500, "parameter_changes": 500, "passive_simulations": 60}
 SHARD_TIMEOUT = {"quick": 900, "thorough": 3000}
 
 
@@ -127,15 +127,27 @@ def run_sim(rec, spec, rng, i):
         P = float(rng.choice([-1, 1]) * 10 ** rng.uniform(-6, 1)) if rng.random() < 0.9 else 0.0
         opk = int(rng.integers(0, 3))
         op = [oc.IsotropicDeformation, oc.AnisotropicDeformation, oc.ShapeDeformation][opk](float(10 ** rng.uniform(-3, -0.5)))
+        # every other simulation hands its moves to the driver's constructor (the documented default_displacement_move /
+        # default_cell_move parameters) with a labelling that groups atoms into molecules and freezes some (negative
+        # labels); the N of the statement stays the number of atoms, all of which a cell move rescales
+        via_ctor = bool(i % 2)
+        dkw = {}
+        if via_ctor:
+            lab = np.arange(n) // 2
+            if n >= 3:
+                lab[-1] = -1
+            dkw = {"default_displacement_move": DisplacementMove(lab, od.Box(0.1 * edge)), "default_cell_move": CellMove(op, scale_atoms=bool(rng.random() < 0.7))}
+            rec.count("simulations_with_constructor_default_moves")
         if ens == "isobaric":
-            mc = Isobaric(atoms, temperature=T, pressure=P, max_cycles=3, seed=seed)
+            mc = Isobaric(atoms, temperature=T, pressure=P, max_cycles=3, seed=seed, **dkw)
             metropolis.intend(mc.context, T=T, P=P)
         else:
             S = P * np.eye(3) if ens == "isotension-hydro" else rand_stress(rng)
-            mc = Isotension(atoms, temperature=T, pressure=P, external_stress=S, max_cycles=3, seed=seed)
+            mc = Isotension(atoms, temperature=T, pressure=P, external_stress=S, max_cycles=3, seed=seed, **dkw)
             metropolis.intend(mc.context, T=T, P=P, S=np.array(S, copy=True))
-        mc.add_move(CellMove(op, scale_atoms=bool(rng.random() < 0.7)), name="c", probability=0.7)
-        mc.add_move(DisplacementMove(np.arange(n), od.Box(0.1 * edge)), name="d", probability=0.3)
+        if not via_ctor:
+            mc.add_move(CellMove(op, scale_atoms=bool(rng.random() < 0.7)), name="c", probability=0.7)
+            mc.add_move(DisplacementMove(np.arange(n), od.Box(0.1 * edge)), name="d", probability=0.3)
     else:
         mol = ens == "grand-mol"
         edge = float(10 ** rng.uniform(0.3, 2))
